@@ -258,6 +258,28 @@ def refs_discipline(P, R, rule):
                     return t.ev['k'] == 'store' and outer_field(t.ev['lhs']) == 'refs' and t.ev.get('op') == '--'
                 p = f.path_avoiding(s, rel)
                 R.ob(rule, p is None, s, 'a cleared awaited bit gives its reference back before the function returns', key='clear->unref')
+    # ... exactly one: along every path through a function that clears awaited bits, releases and clears come in equal
+    # numbers (a second release for one clear frees a service another client still awaits)
+    for f in sorted(P.fns.values(), key=lambda x: x.key):
+        clears = [s for s in f.stores() if s.ev['k'] == 'store' and outer_field(s.ev['lhs']) == MASK and s.ev.get('op') == '&=']
+        if not clears or any(s.bid in f.reach([e.dst for e in f.out[s.bid]]) for s in clears):
+            continue        # clears inside a loop are counted per iteration by the rule above
+
+        def on_event2(st, s):
+            d, c = st
+            ev = s.ev
+            if ev['k'] == 'store':
+                fld, op = outer_field(ev['lhs']), ev.get('op')
+                if fld == 'refs' and op == '--':
+                    return (min(d + 1, 3), c)
+                if fld == MASK and op == '&=':
+                    return (d, min(c + 1, 3))
+            return st
+        _, at_exit2, _, _ = f.forward((0, 0), on_event2, None)
+        n += 1
+        bad = sorted({st for st in at_exit2 if st[0] != st[1]})
+        R.ob(rule, not bad, clears[0], 'on every path through %s the number of references given back equals the number of awaited bits cleared%s' % (f.name, (' (releases, clears) = %s' % bad) if bad else ''),
+             key='unref-once:%s' % f.name)
     R.floor(rule, 6, 'stores to the reference count and the awaiting mask')
     return n
 
@@ -333,6 +355,31 @@ def hard_hold_sites(P, R, rule):
             want = ('+! newly requested (set now, clear before) and no account' if op == '++'
                     else '+! withdrawn (clear now, set before) with no account, or +! set and account empty before / non-empty after the stamp')
             R.ob(rule, ok, s, 'holds%s guarded by its transition: %s (guards found: %s)' % (op, want, sorted(fs)), key='holds%s' % op)
+    # the client's mode set and the hard hold move together: once the set has been written, every path to the function's
+    # exit passes the test of the +! bit that decides the transition (a mode set updated on a path that returns early
+    # leaves "+! requested" without its hold, and the next PASS sees no transition either)
+    for f in sorted(P.fns.values(), key=lambda x: x.key):
+        if not any(outer_field(s.ev['lhs']) == HARD for s in f.stores() if s.ev['k'] == 'store'):
+            continue
+        ws = [s for s in f.sites() if fw.site_writes(s, 'modes') and (s.ev['k'] != 'call' or not any(t.unit.startswith('modules/') for t in P.callees(s, False)))]
+        if not ws:
+            continue
+
+        def reads_bit(t):
+            for ex in rules.event_exprs(t.ev):
+                for x in walk(ex):
+                    if x.get('k') == 'bittest' and x.get('bit') == 'IAUTH_XQUERY_HIDDEN_ONLY':
+                        return True
+            return False
+        for s in ws:
+            ok = f.path_avoiding(s, reads_bit) is None
+            if not ok:
+                # the bit may be read in a branch condition: blocks whose terminator tests it
+                tests = {b for b in f.blocks if f.term_cond(b) is not None and any(x.get('k') == 'bittest' and x.get('bit') == 'IAUTH_XQUERY_HIDDEN_ONLY' for x in walk(f.term_cond(b)))}
+                cut = f.reach([e.dst for e in f.out[s.bid]], cut_blocks=list(tests))
+                ok = bool(tests) and f.exit not in cut
+            n += 1
+            R.ob(rule, ok, s, 'after the client\'s mode set is written every path evaluates the +! transition before the function returns', key='modes-then-transition')
     R.floor(rule, 3, 'stores to the hard hold counter')
     return n
 
